@@ -14,18 +14,20 @@ G2Four  == <<3, 3, 3, 3>>     \* every cell alone
 L2a == <<G2One, G2NS>>
 L2b == <<G2One, G2NS, G2Three>>
 L2c == <<G2Bare, G2WE, G2Ell, G2Four>>
+L2d == <<G2WE, G2Ell>>
 (* 4 x 4, one row per chunk *)
 G4One  == <<3, 2, 2, 2,  1, 0, 0, 0,  1, 0, 0, 0,  1, 0, 0, 0>>
-G4Ring == <<3, 2, 2, 2,  1, 3, 2, 1,  1, 1, 0, 1,  1, 2, 2, 0>>   \* a 2 x 2 island in the middle
+G4Ring == <<3, 2, 2, 2,  1, 0, 3, 1,  1, 0, 1, 1,  1, 0, 2, 0>>   \* an island {6, 10} off the diagonal (nothing here is symmetric in x and y)
+G4Isle == <<3, 2, 2, 2,  1, 3, 2, 1,  1, 1, 0, 1,  1, 2, 2, 0>>   \* a 2 x 2 island in the middle
 G4Spir == <<3, 2, 2, 2,  1, 2, 2, 1,  1, 1, 2, 1,  1, 0, 1, 0>>   \* winding corridors
 G4Quad == <<3, 2, 3, 2,  1, 0, 1, 0,  3, 2, 3, 2,  1, 0, 1, 0>>   \* four quarters
 L4a == <<G4One, G4Ring>>
-L4b == <<G4One, G4Ring, G4Spir, G4Quad>>
+L4b == <<G4One, G4Ring, G4Spir, G4Quad, G4Isle>>
 B2a == {{3}}
-B2b == {{}, {0, 1}, {3}}
+B2b == {{}, {1, 3}, {2}}
 B4a == {{15}}
-B4b == {{}, {5, 6}, {15}}
-B4c == {{5, 6}, {15}}
+B4b == {{}, {6, 10}, {15}}
+B4c == {{6, 10}, {15}}
 
 St == [kind |-> kind, pend |-> pend, ov |-> ov, idx |-> idx, parcels |-> parcels, dirty |-> dirty, downloaded |-> downloaded,
        nextSeq |-> nextSeq, calls |-> calls, outst |-> outst, nprops |-> nprops]
